@@ -47,6 +47,7 @@ type Action struct {
 	Drop  bool
 	Dups  int           // extra copies
 	Delay time.Duration // delivery delay of all copies
+	DupDelay time.Duration // additional delay of the extra copies only (a late duplicate)
 }
 
 // Policy decides per frame.  It is called with the network lock held; it must not block.
@@ -177,8 +178,13 @@ func (e *End) WriteMsg(b []byte) error {
 	}
 	data := append([]byte(nil), b...)
 	deliver := func() {
-		for k := 0; k <= act.Dups; k++ {
-			e.peer.push(data)
+		e.peer.push(data)
+		for k := 0; k < act.Dups; k++ {
+			if act.DupDelay > 0 {
+				time.AfterFunc(act.DupDelay, func() { e.peer.push(data) })
+			} else {
+				e.peer.push(data)
+			}
 		}
 	}
 	if act.Delay > 0 {
